@@ -142,10 +142,11 @@ bucket_fromBytes(PyObject *oself, PyObject *state)
     keys = BTree_Realloc(self->keys, sizeof(KEY_TYPE)*len);
     if (keys == NULL)
       return NULL;
+    /* The old block is gone now, whatever happens next. */
+    self->keys = keys;
     values = BTree_Realloc(self->values, sizeof(VALUE_TYPE)*len);
     if (values == NULL)
       return NULL;
-    self->keys = keys;
     self->values = values;
     self->size = len;
   }
